@@ -68,6 +68,9 @@ theorem coincident_unequal_raises (p d : Pt ℝ) (par : Option (Par ℝ)) (h : C
     (∃ e, Segment.volume (mkSeg p d par) = .error e) ∧ (∃ e, Segment.surface_area (mkSeg p d par) = .error e) := by
   rw [volume_eval, surface_area_eval]; simp [h, hd]
 
+example : Coincident (⟨0, 0, 0, 2⟩ : Pt ℝ) ⟨0, 0, 0, 4⟩ ∧ (⟨0, 0, 0, 2⟩ : Pt ℝ).diameter ≠ (⟨0, 0, 0, 4⟩ : Pt ℝ).diameter :=
+  ⟨⟨rfl, rfl, rfl⟩, by norm_num⟩
+
 /-! ### the closed-form clause at full strength, and the known finding
 
 The property says: frustum for every segment with both end points, sphere when the points coincide *with equal
